@@ -24,8 +24,9 @@ ASSUMPTIONS = [
 
 # ------------------------------------------------------------------------------------------ grammar
 _f = st.one_of(gen.rounded(0.1, 5.0, 4), gen.logu(1e-8, 1e8), st.sampled_from([1e-300, 1e300, 0.1 + 0.2, 1 / 3, 2.5e-15]))
-_leafnum = st.tuples(_f, st.sampled_from(["float", "np.float64", "int", "np.int64", "np.int32"])).map(lambda t: {"v": t[0], "ty": t[1]})
-_cplx = st.tuples(_f, gen.rounded(0.0, 2.0, 5), st.sampled_from(["complex", "np.complex128"])).map(lambda t: {"v": [t[0], t[1]], "ty": t[2]})
+_leafnum = st.tuples(_f, st.sampled_from(["float", "np.float64", "int", "np.int64", "np.int32", "float", "np.float64", "int",
+                                         "np.float32", "np.float16", "np.int16", "np.uint8"])).map(lambda t: {"v": t[0], "ty": t[1]})
+_cplx = st.tuples(_f, gen.rounded(0.0, 2.0, 5), st.sampled_from(["complex", "np.complex128", "complex", "np.complex64"])).map(lambda t: {"v": [t[0], t[1]], "ty": t[2]})
 _seq = st.sampled_from(["list", "tuple", "array"])
 
 
@@ -41,8 +42,16 @@ def num(d):
         return np.int64(min(max(round(v), -10 ** 9), 10 ** 9))
     if ty == "np.int32":
         return np.int32(min(max(round(v), -10 ** 6), 10 ** 6))
+    if ty in ("np.float32", "np.float16"):
+        return getattr(np, ty[3:])(v)
+    if ty == "np.int16":
+        return np.int16(min(max(round(v), -10 ** 4), 10 ** 4))
+    if ty == "np.uint8":
+        return np.uint8(min(max(round(abs(v)), 0), 255))
     if ty == "complex":
         return complex(v[0], v[1])
+    if ty == "np.complex64":
+        return np.complex64(complex(v[0], v[1]))
     return np.complex128(complex(v[0], v[1]))
 
 
@@ -135,7 +144,9 @@ def scat_spec(depth=2):
         return prims
     sub = scat_spec(depth - 1)
     return st.one_of(prims,
-                     st.fixed_dictionaries({"c": st.just("Spheres"), "m": st.lists(sphere, min_size=1, max_size=3), "warn": st.sampled_from([True, False, "auto"])}),
+                     st.fixed_dictionaries({"c": st.just("Spheres"), "m": st.lists(sphere, min_size=1, max_size=3), "warn": st.sampled_from([True, False, "auto", "np.bool_"]),
+                                            # share: members after the first use the very same index / centre object as the first
+                                            "share": st.sampled_from([None, None, None, "n", "center"])}),
                      st.fixed_dictionaries({"c": st.just("Scatterers"), "m": st.lists(sub, min_size=0, max_size=3)}),
                      st.fixed_dictionaries({"c": st.just("RigidCluster"), "m": st.lists(sphere, min_size=1, max_size=3), "tr": rot3, "rot": rot3}),
                      st.fixed_dictionaries({"c": st.sampled_from(["Union", "Difference", "Intersection"]), "ra": _f, "rb": _f}))
@@ -178,10 +189,13 @@ def build_scat(d):
         return cls(n=seq(d["seq"], [n, n]), r=seq(d["seq"], [a, b]), rotation=seq(d["rot"]["seq"], [val(x) for x in d["rot"]["items"]][:2]), center=cen)
     if c == "Spheres":
         m = [build_scat(x) for x in d["m"]]
+        if d.get("share") and len(m) > 1:
+            for x in m[1:]:
+                setattr(x, d["share"], getattr(m[0], d["share"]))
         import warnings
         with warnings.catch_warnings():
             warnings.simplefilter("ignore")
-            return Spheres(m) if d["warn"] == "auto" else Spheres(m, warn=d["warn"])
+            return Spheres(m) if d["warn"] == "auto" else Spheres(m, warn=np.bool_(False) if d["warn"] == "np.bool_" else d["warn"])
     if c == "Scatterers":
         return Scatterers([build_scat(x) for x in d["m"]])
     if c == "RigidCluster":
@@ -309,7 +323,7 @@ def normalise(v, depth=0):
     if isinstance(v, (int, np.integer)):
         return ("num", float(v))
     if isinstance(v, (float, np.floating)):
-        return ("num", float(v)) if not math.isinf(v) else ("num", repr(float(v)))
+        return ("num", float(v)) if math.isfinite(v) else ("num", repr(float(v)))
     if isinstance(v, (complex, np.complexfloating)):
         return ("cplx", (float(v.real), float(v.imag)))
     if v is None or isinstance(v, str):
@@ -542,6 +556,118 @@ def run_seq(case):
     return Outcome(None, distinct >= 2, labels)
 
 
+# ------------------------------------------------------------------------------------------ models with ties
+_FAMILIES = [("uniform", 0.4, 0.6), ("gaussian", 1.5, 0.1), ("uniform", 1.0, 2.0), ("bounded", 0.5, 0.2)]
+
+
+def strat_ties(tier):
+    # every prior-valued place draws a family; places of one family hold equal but distinct prior objects, so they
+    # can be tied (or left untied: two separate parameters that compare equal)
+    fam = st.integers(0, len(_FAMILIES) - 1)
+    place = st.one_of(st.none(), fam, fam)       # None = a fixed number
+    sph = st.fixed_dictionaries({"n": place, "r": place, "c": st.lists(place, min_size=3, max_size=3)})
+    return st.fixed_dictionaries({
+        "spheres": st.lists(sph, min_size=1, max_size=3), "alpha": place, "medium_index": place, "noise_sd": place,
+        "wl": st.one_of(place, st.fixed_dictionaries({"red": place, "green": place})),
+        "lens_angle": st.one_of(st.just("mie"), place), "model": st.sampled_from(["alpha", "exact"]),
+        "same_names": st.booleans(),
+        # ties: each picks a family and a subset of that family's parameters (by position among them)
+        "ties": st.lists(st.fixed_dictionaries({"fam": fam, "pick": st.lists(st.integers(0, 11), min_size=2, max_size=5, unique=True),
+                                                "rename": st.sampled_from([None, None, "tied_par", "alpha", "x"])}), min_size=0, max_size=3),
+        "route": st.sampled_from(["path", "stream"]), "cycles": st.integers(1, 2),
+        "vals": st.lists(gen.rounded(0.35, 1.9, 4), min_size=24, max_size=24),
+    })
+
+
+def run_ties(case):
+    from holopy.core import prior
+    from holopy.scattering import Sphere, Spheres, Mie, MieLens
+    from holopy.inference import AlphaModel, ExactModel
+
+    def mk(f, fixed):
+        if f is None:
+            return fixed
+        kind, a, b_ = _FAMILIES[f]
+        if kind == "uniform":
+            return prior.Uniform(a, b_)
+        if kind == "gaussian":
+            return prior.Gaussian(a, b_)
+        return prior.BoundedGaussian(a, b_, a - 2 * b_, a + 2 * b_)
+    spheres = [Sphere(n=mk(sp["n"], 1.5), r=mk(sp["r"], 0.5), center=[mk(c, 1.0 + i + j) for j, c in enumerate(sp["c"])]) for i, sp in enumerate(case["spheres"])]
+    scat = spheres[0] if len(spheres) == 1 else Spheres(spheres, warn=False)
+    wl = case["wl"]
+    wl = {k: mk(v, 0.6) for k, v in wl.items()} if isinstance(wl, dict) else mk(wl, 0.66)
+    theory = Mie() if case["lens_angle"] == "mie" else MieLens(lens_angle=mk(case["lens_angle"], 0.8))
+    kw = dict(theory=theory, medium_index=mk(case["medium_index"], 1.33), illum_wavelen=wl, illum_polarization=(1, 0), noise_sd=mk(case["noise_sd"], 0.1))
+    try:
+        model = AlphaModel(scat, alpha=mk(case["alpha"], 0.8), **kw) if case["model"] == "alpha" else ExactModel(scat, **kw)
+    except Exception as e:
+        return Outcome(None, False, ["model_not_constructible:" + type(e).__name__], skipped=True)
+    labels = [type(model).__name__, "k%d" % len(spheres)]
+    n_tied = 0
+    cross = False
+    for t in case["ties"]:
+        names = list(model._parameter_names)
+        ref = mk(t["fam"], None)
+        members = [nm for nm in names if model.parameters[nm].renamed(None) == ref]
+        chosen = [members[i] for i in sorted(set(j % len(members) for j in t["pick"]))] if len(members) >= 2 else []
+        if len(chosen) < 2:
+            continue
+        rename = t["rename"]
+        if rename is not None and rename in names and rename not in chosen:
+            rename = None          # a new name must not collide with another parameter
+        try:
+            model.add_tie(chosen, new_name=rename)
+        except Exception as e:
+            return Outcome(failure("add_tie_exception", "add_tie(%r, %r): %s: %s" % (chosen, rename, type(e).__name__, str(e)[:200])), True, labels)
+        n_tied += 1
+        kinds = {("scatterer" if (":" in nm or nm.split(".")[0] in ("n", "r", "center")) else "other") for nm in chosen}
+        cross = cross or len(kinds) == 2
+    if n_tied:
+        labels.append("ties_%d" % n_tied)
+    if cross:
+        labels.append("tie_between_scatterer_and_other_argument")
+    # equal priors left untied: two parameters that compare equal
+    pars = list(model._parameters)
+    if any(pars[i].renamed(None) == pars[j].renamed(None) for i in range(len(pars)) for j in range(i + 1, len(pars))):
+        labels.append("equal_untied_parameters")
+    if len(set(model._parameter_names)) != len(model._parameter_names):
+        return Outcome(None, False, labels + ["names_not_unique_before_saving"], skipped=True)
+    cur = model
+    first_text = None
+    for cyc in range(case["cycles"]):
+        try:
+            cur, text = roundtrip(cur, case["route"])
+            first_text = first_text or text
+        except Exception as e:
+            return Outcome(failure("save_load_exception", "model: %s during cycle %d: %s" % (type(e).__name__, cyc + 1, str(e)[:300]), klass="model", exc=type(e).__name__), True, labels)
+    if type(cur) is not type(model):
+        return Outcome(failure("class_changed", "model reloaded as %s" % type(cur).__name__, klass="model"), True, labels)
+    if list(cur._parameter_names) != list(model._parameter_names):
+        return Outcome(failure("model_parameter_names", "parameter names %r -> %r" % (model._parameter_names, cur._parameter_names),
+                               cross_tie=cross), True, labels)
+    if [normalise(p_) for p_ in cur._parameters] != [normalise(p_) for p_ in model._parameters]:
+        return Outcome(failure("model_parameters", "parameters changed by the round trip", cross_tie=cross), True, labels)
+    vals = [case["vals"][i % 24] for i in range(len(model._parameters))]
+    for what, f in (("scatterer", lambda m: m.scatterer_from_parameters(vals)), ("theory", lambda m: m.theory_from_parameters(vals)),
+                    ("optics", lambda m: m._find_optics(vals, None)), ("noise", lambda m: m._find_noise(vals, None)),
+                    ("model", lambda m: __import__("holopy").core.mapping.read_map(m._maps["model"], vals))):
+        try:
+            a = f(model)
+        except Exception:
+            continue
+        try:
+            b_ = f(cur)
+        except Exception as e:
+            return Outcome(failure("model_value_to_place", "%s: reloaded model raises %s" % (what, type(e).__name__), what=what), True, labels)
+        if normalise(a) != normalise(b_):
+            return Outcome(failure("model_value_to_place", "%s built from the same values differs after reload: %s" % (what, _first_diff(normalise(a), normalise(b_))), what=what), True, labels)
+    text2 = roundtrip(cur, case["route"])[1]
+    if text2 != first_text or text != first_text:
+        return Outcome(failure("text_not_fixpoint", "model: saving the reloaded model gives different text", klass="model"), True, labels)
+    return Outcome(None, n_tied > 0 or "equal_untied_parameters" in labels, labels)
+
+
 SUBCHECKS = [
     Sub("model_sequences", strat_seq, run_seq, 600, 10000,
         "2-4 different models (C11 template generator; with and without LimitOverlaps constraints) saved and loaded in a "
@@ -557,6 +683,13 @@ SUBCHECKS = [
         "options and prior-valued parameters (Mie, Multisphere, Tmatrix, MieLens, AberratedMieLens, Lens); strategies and "
         "LimitOverlaps. Through file path, binary stream or yaml.dump/load, 1-3 cycles: same class, every stored constructor "
         "argument equal after normalisation, text fixpoint, library == when arguments are lists/scalars",
+        tolerances={"equality": "exact after normalisation"}),
+    Sub("model_ties", strat_ties, run_ties, 1500, 30000,
+        "1-3 spheres whose prior-valued places (index, radius, centre), alpha, medium index, wavelength (also per channel), noise "
+        "and lens angle draw from 4 prior families, every place with its own object: equal priors can be tied or stay separate. "
+        "0-3 add_tie calls over generated subsets of one family (within the scatterer, between the scatterer and alpha/optics/"
+        "theory, renamed or not); AlphaModel/ExactModel; 1-2 save/load cycles: same parameter names, parameters, value-to-place "
+        "mapping for scatterer/theory/optics/noise/alpha, text fixpoint; non-trivial = at least one tie or two equal untied parameters",
         tolerances={"equality": "exact after normalisation"}),
     Sub("models", strat_model, run_model, 1500, 30000,
         "AlphaModel/ExactModel from the C11 template generator (shared/named/transformed/complex priors, per-channel "
